@@ -2054,7 +2054,13 @@ impl Tree {
                 '(' => {
                     // Start subtree
                     match parent_stack.last() {
-                        None => parent_stack.push(tree.add(Node::new())),
+                        None => {
+                            // Only one root: nothing can be opened after the tree is closed
+                            if !tree.nodes.is_empty() {
+                                return Err(NewickParseError::NoSubtreeParent);
+                            }
+                            parent_stack.push(tree.add(Node::new()))
+                        }
                         Some(parent) => {
                             parent_stack.push(tree.add_child(Node::new(), *parent, None)?)
                         }
@@ -2067,13 +2073,16 @@ impl Tree {
                 }
                 ',' => {
                     // Add sibling
+                    if parent_stack.is_empty() {
+                        return Err(NewickParseError::NoSubtreeParent);
+                    }
                     let node = if let Some(index) = current_index {
                         tree.get_mut(&index)?
                     } else {
                         if let Some(parent) = parent_stack.last() {
                             current_index = Some(tree.add_child(Node::new(), *parent, None)?);
                         } else {
-                            unreachable!("Sould not be possible to have named child with no parent")
+                            return Err(NewickParseError::NoSubtreeParent);
                         };
                         tree.get_mut(current_index.as_ref().unwrap())?
                     };
@@ -2102,6 +2111,9 @@ impl Tree {
                 }
                 ')' => {
                     // Close subtree
+                    if parent_stack.is_empty() {
+                        return Err(NewickParseError::NoSubtreeParent);
+                    }
                     open_delimiters.pop();
                     let node = if let Some(index) = current_index {
                         tree.get_mut(&index)?
@@ -2109,7 +2121,7 @@ impl Tree {
                         if let Some(parent) = parent_stack.last() {
                             current_index = Some(tree.add_child(Node::new(), *parent, None)?);
                         } else {
-                            unreachable!("Sould not be possible to have named child with no parent")
+                            return Err(NewickParseError::NoSubtreeParent);
                         };
                         tree.get_mut(current_index.as_ref().unwrap())?
                     };
@@ -2146,7 +2158,13 @@ impl Tree {
                     if !open_delimiters.is_empty() {
                         return Err(NewickParseError::UnclosedBracket);
                     }
-                    let node = tree.get_mut(current_index.as_ref().unwrap())?;
+                    let index = match current_index {
+                        Some(index) => index,
+                        // A lone label is a tree with a single node
+                        None if tree.nodes.is_empty() => tree.add(Node::new()),
+                        None => return Err(NewickParseError::NoSubtreeParent),
+                    };
+                    let node = tree.get_mut(&index)?;
                     node.name = current_name;
                     node.comment = current_comment;
                     if let Some(length) = current_length {
